@@ -424,6 +424,7 @@ func (fv *FV) evalSelector(st *State, x *ast.SelectorExpr) Term {
 		v := fv.evalExpr(st, x.X)
 		if _, isPtr := v.T.Underlying().(*types.Pointer); isPtr {
 			fv.safety(st, "nil["+fv.src(x)+"]", not(eq(v.S, "0")), "nil dereference: "+fv.src(x), x.Pos())
+			fv.guardCheck(st, v, x.Sel.Name, fv.src(x), x.Pos())
 		}
 		return fv.fieldTerm(st, v, x.Sel.Name)
 	case types.MethodVal:
